@@ -22,7 +22,7 @@ import UgoVerif.Proofs.CompSimFall
   * two slices of the simulation theorem compile ⊑ Sem (section "compile ⊑ Sem" below):
     `compile_expr_correct` (expressions over uncaptured scalar locals), `compile_stmt_correct` /
     `compile_stmts_correct` (`e;`, `x := e`, `var x = e`, `var x`, `x = e`, `x op= e`, `x++`, `x--`, blocks,
-    `if` / `else` also with an init statement or the literal `true` as condition, `return`), with
+    `if` / `else` also with an init statement or a boolean literal as condition, `return`), with
     the VM heap related to the reference heap modulo the reference semantics' variable boxes, and
     the whole-script corollary `C02_fragment` for ALL scripts of that fragment (compile-model output,
     loaded and run by the VM model's `Run`, returns what `Sem.runProgram` returns; a script that
@@ -417,7 +417,7 @@ theorem vm_tokens_match_source :
   `compile_stmt_correct` / `compile_stmts_correct`: a statement (list) of `StmtF` — `e;`, `x := e`,
   `var x = e`, `var x`, `x = e`, `x op= e`, `x++`, `x--`, `{ … }`, `if c { … }`, `if c { … } else { … }` / `else if`
   (`c` an expression of the fragment that is not a boolean literal, or the literal `true`: the compiler
-  then emits the body only), `if init; c { … }` with or without `else` (`init` a statement of the
+  then emits the body only, or the literal `false`: a JUMP and the else part only), `if init; c { … }` with or without `else` (`init` a statement of the
   fragment, its variables in scope of `c`, body and else part), `return`, `return e`, the empty statement — compiled from `cs` to `cs'` in a state with a function table, outside `try`,
   whose slots fit (`CsOK`), the names of `B` resolved to locals (`Cov`); `L` bounds the function's
   `NumLocals` (`fnMax cs'.tables ≤ L`), the local slots `[bp, bp + L)` lie below `sp`.  For EVERY fuel
@@ -452,7 +452,7 @@ theorem vm_tokens_match_source :
   closures / free variables, calls, arrays / maps / index / selector / slice and every other value
   with a heap address (the heap relation then needs an address map), `try` / `catch` / `finally` /
   `throw` (C03), globals, builtins, `const` declarations, `var` with several names or specifications, destructuring,
-  `param`, imports / modules, `if false` (JUMP over the dead body), `if init; true`, and the
+  `param`, imports / modules, `if init; <boolean literal>`, and the
   optimizer (C01).  -/
 
 open UgoVerif.CompSim in
@@ -842,14 +842,45 @@ example : ∃ n, ∀ fuel, n ≤ fuel → (runFrom F0 fuel .nil [] (loadProg (bc
       exact (C02_fragment F0 [] [] file2 (bcOf file2) hb0 hF2 hc2 hsp2 (startState (bcOf file2)) (heapRel_refl _) 60 {} ss1
         _ t1 hr).2
 
+/-! #### `if false`: `x := 1; if false { x = 2 } else { x++ }; if false { x = 5 }; return x` — the bodies of the two
+    `if false` are not compiled (JUMP 15; JUMP 24; else part; JUMP 29; GETLOCAL 0; RETURN 1) -/
+
+def file3 : List Stmt :=
+  [ .assign 1 tDefine [.ident 1 "x"] [.int 6 1#64],
+    .if_ 8 none (.bool 11 false) 17 [.assign 19 tAssign [.ident 19 "x"] [.int 23 2#64]]
+      (some (.block 32 [.incdec 34 tInc 35 (.ident 34 "x")])),
+    .if_ 40 none (.bool 43 false) 49 [.assign 51 tAssign [.ident 51 "x"] [.int 55 5#64]] none,
+    .return_ 59 (some (.ident 66 "x")) ]
+
+theorem hc3 : Compile.compileFile [] [] file3 = .ok (bcOf file3) := hcOf file3 (by decide +kernel)
+theorem hF3 : StmtsF [] file3 = true := by decide +kernel
+theorem hsp3 : (bcOf file3).main.numLocals + needL file3 ≤ 2048 := by decide +kernel
+example : (bcOf file3).main.insts = #[1, 0, 0, 40, 0, 12, 0, 0, 0, 15, 12, 0, 0, 0, 24, 5, 0, 1, 0, 0, 8, 12, 6, 0,
+    12, 0, 0, 0, 29, 5, 0, 39, 1] := by decide +kernel
+theorem sem3 : (match (exec ((Sem.runProgram F0 60 file3 []).run {}) (startState (bcOf file3))).1 with
+    | .ok (.value v, _) => decide (v = V.int 2#64) | _ => false) = true := by decide +kernel
+example : (match (runFrom F0 200 .nil [] (loadProg (bcOf file3))).1 with
+    | .value v => decide (v = V.int 2#64) | _ => false) = true := by decide +kernel
+example : ∃ n, ∀ fuel, n ≤ fuel → (runFrom F0 fuel .nil [] (loadProg (bcOf file3))).1 = VM.Outcome.value (.int 2#64) := by
+  have hres := sem3
+  cases hr : exec ((Sem.runProgram F0 60 file3 []).run {}) (startState (bcOf file3)) with
+  | mk r t1 =>
+    rw [hr] at hres
+    match r, hres with
+    | .ok (.value v, ss1), hv =>
+      have hv' : v = V.int 2#64 := of_decide_eq_true hv
+      subst hv'
+      exact (C02_fragment F0 [] [] file3 (bcOf file3) hb0 hF3 hc3 hsp3 (startState (bcOf file3)) (heapRel_refl _) 60 {} ss1
+        _ t1 hr).2
+
 end Ex
 /-- the source-level statement (not proved; tested by stream `sem`).  Proved slices of it:
     `compile_expr_correct`, `compile_stmt_correct`, `compile_stmts_correct`, `C02_fragment` above —
     scripts built from expression statements, `:=` / `var` (with or without value) / `=` / compound assignment /
-    `++` / `--` on uncaptured scalar locals, blocks, `if` / `else` (also `if init; c`, `if true`), `return`, falling off
+    `++` / `--` on uncaptured scalar locals, blocks, `if` / `else` (also `if init; c`, `if true`, `if false`), `return`, falling off
     the end.  Still only tested: loops, captured variables / closures,
     calls, containers (arrays, maps, index, selector, slice), `try` / `catch` / `finally` / `throw`,
-    globals, modules / imports, builtins, `const` declarations, `var` groups, destructuring, `param`, `if false` -/
+    globals, modules / imports, builtins, `const` declarations, `var` groups, destructuring, `param` -/
 def C02_full (Script Input Outcome : Type) (impl sem : Script → Input → Option Outcome) : Prop :=
   ∀ p i o₁ o₂, impl p i = some o₁ → sem p i = some o₂ → o₁ = o₂
 
